@@ -1,6 +1,22 @@
 """Per-property manifest metadata.  bin/mkmanifest renders MANIFEST.json from this."""
 
 CHECKS = {
+    "C06": dict(
+        text="spec/EzspCmd.tla models the command multiplexer per handler lifetime (register-then-send under a single slot with a "
+             "priority queue, bounded wait, reply/callback demultiplexing by sequence number, stale registrations, responses overtaking "
+             "the link-level send). EzspCmdMC explores 3 (quick) / 3-4 (thorough) concurrent callers of mixed priority with NCP replies "
+             "(late, duplicate, misnumbered), callbacks, link failures/delays, cancellation and SeqMod 4: own response only, one in "
+             "flight, sequence +1, queue sorted by (class, arrival), slot never idle with waiters. The real EZSP + ProtocolHandler of "
+             "versions 4..14 run on a fake gateway in virtual time: a blocker plus every triple of callers from the three priority "
+             "classes x every sequence of 2 (quick) / 3 (thorough) of 13 environment reactions, and random runs of 600 commands "
+             "wrapping the sequence number twice; TLC validates each run against Trace_EzspCmd (frames handed to the link with "
+             "sequence/ID decoded by the harness's own header decoder, outcome and time of each call, callback deliveries).",
+        design_ref="3/C06",
+        note="Trusted: fake gateway, virtual-time loop, zigpy's priority semaphore is part of the implementation under test. Per handler "
+             "lifetime (a version switch or reset replaces the handler; that is C09). Latitude: a reply hitting a stale registration may be "
+             "dropped or handed to the callbacks once; getValue / set-up commands' class is not pinned by the property.",
+        technique="TLA+ spec + TLC exhaustive model check; enumerated and random scripts executed on the implementation in virtual time; TLC trace validation",
+    ),
     "C16": dict(
         text="spec/ConfigWrite.tla states the contract over the ordered set operations the NCP sees (each setting at most once; a "
              "user value exactly as given; nothing for a disabled setting; bellows' own defaults never below the reported value for "
